@@ -4,6 +4,7 @@ C18 — Rate limiter and throttle handler bound the send rate without starving i
 -/
 import SmppVerif.Lemmas.Limiter
 import SmppVerif.Lemmas.Gate
+import SmppVerif.Gen.Site
 
 namespace SmppVerif.Props.C18
 open SmppVerif SmppVerif.Policy SmppVerif.Lemmas.Limiter
@@ -133,6 +134,12 @@ example : ((Bucket.init 2 0).run [1/4, 1/4, 1/4, 1/4, 5/4]).2 = 3 := by decide +
 example : ((⟨180, 50, 1, 49, 1, 0⟩ : Throttle).allow 10).2 = false := by decide +kernel
 example : ((⟨180, 50, 1, 49, 0, 0⟩ : Throttle).allow 10).2 = true := by decide +kernel
 
+/-- TIE TO THE SOURCE (regenerated on every run, Gen/Site.lean): in the Sender loop the throttle handler and the rate limiter are consulted INSIDE the loop over the PDUs of a message, each PDU on its own, in this order, before `_send_data` - what the gate model (Model/Gate.lean) assumes -/
+theorem gate_step_order :
+    Gen.Site.dequeueLoop.filter (fun x => x ∈ ["for", "allow_request", "limit", "_send_data", "end-for"]) =
+      ["for", "end-for", "for", "allow_request", "limit", "_send_data", "end-for"] := by
+  decide
+
 end SmppVerif.Props.C18
 
 #print axioms SmppVerif.Props.C18.passes_window
@@ -147,3 +154,4 @@ end SmppVerif.Props.C18
 #print axioms SmppVerif.Props.C18.sender_accepted
 #print axioms SmppVerif.Props.C18.sender_never_writes_denied
 #print axioms SmppVerif.Props.C18.sender_progress
+#print axioms SmppVerif.Props.C18.gate_step_order
